@@ -44,6 +44,7 @@ func runC07(c *Ctx) {
 	c.Rule("O7.2", "in-file header accumulator is forgotten at each pass: in decoders with an http.Header accumulator field, every seek to the start of the file is preceded, in the same loop, by storing a fresh header map to that field")
 	c.Rule("O7.3", "buffered reader re-synchronised after seek: after every successful Seek the scanner/reader/JSON decoder is recreated from the file or Reset(file) exactly once before reading again")
 	c.Rule("O7.4", "blank lines are skipped: the len(TrimSpace(line)) == 0 edge neither counts an entry nor returns an error")
+	c.Rule("O7.6", "entries are decoded into fresh storage: the target handed to json Decode/Unmarshal for an ammo entry is a local variable allocated (zero) for this entry - not a decoder field or other storage that survives from one entry to the next (encoding/json merges into existing maps and keeps absent fields)")
 	c.Rule("O7.5", "entry fields reach the ammo: the arguments of Ammo.Setup / RawAmmo.Setup derive from the parsed entry (method, URL, body, tag) and BuildRequest builds from exactly those fields")
 	P := c.P
 	impls := decoderImpls(c, "O7.1")
@@ -339,6 +340,7 @@ func runC07(c *Ctx) {
 
 	// ---- O7.5
 	c07Setup(c, fns)
+	c07FreshTarget(c)
 }
 
 func hasAmmosRing(st *types.Struct) bool {
@@ -507,4 +509,92 @@ func c07Setup(c *Ctx, fns []*ssa.Function) {
 		})
 		c.Check(okTag, "O7.5", fk(tagFn)+":returns-tag", tagFn.Pos(), "Tag() returns the tag given to Setup")
 	}
+}
+
+
+// c07FreshTarget decides O7.6 over every JSON decode call of the ammo
+// provider packages.
+func c07FreshTarget(c *Ctx) {
+	P := c.P
+	decodeSpecs := []Spec{
+		{"encoding/json", "Decoder", "Decode"}, {"encoding/json", "", "Unmarshal"},
+		{"github.com/json-iterator/go", "", "Unmarshal"}, {"github.com/json-iterator/go", "Decoder", "Decode"},
+		{"github.com/json-iterator/go", "API", "Unmarshal"}, {"gopkg.in/yaml.v2", "", "Unmarshal"},
+	}
+	n := 0
+	for _, rel := range []string{"components/providers/http/decoders", "components/providers/grpc/grpcjson", "components/providers/http/decoders/ammo", "components/providers/grpc"} {
+		sp := P.SSAPkg(rel)
+		if sp == nil {
+			continue
+		}
+		for _, fn := range PkgFuncs(sp) {
+			if !IsProdFile(P.File(fn.Pos())) {
+				continue
+			}
+			EachInstr(fn, func(in ssa.Instruction) {
+				cl, ok := in.(*ssa.Call)
+				if !ok || !MatchCC(&cl.Call, decodeSpecs...) {
+					return
+				}
+				target := cl.Call.Args[len(cl.Call.Args)-1]
+				// only entry-shaped targets (struct / slice of struct / map), not tokens
+				n++
+				fresh := true
+				why := ""
+				for _, r := range Roots(target, false) {
+					a, isA := Strip(r).(*ssa.Alloc)
+					if !isA {
+						fresh = false
+						why = "the target is not a local variable: " + r.String()
+						continue
+					}
+					if a.Parent() != fn || !InstrDominates(a, cl) {
+						fresh = false
+						why = "the target variable is not allocated for this entry (declared outside / captured)"
+						continue
+					}
+					// no store into the variable (or its fields) before the call other than zero values
+					for _, ref := range *a.Referrers() {
+						var st *ssa.Store
+						switch x := ref.(type) {
+						case *ssa.Store:
+							if x.Addr == ssa.Value(a) {
+								st = x
+							}
+						case *ssa.FieldAddr:
+							for _, r2 := range *x.Referrers() {
+								if s2, ok := r2.(*ssa.Store); ok && s2.Addr == ssa.Value(x) {
+									st = s2
+								}
+							}
+						}
+						if st != nil && CanReach(st, cl) {
+							if k, isK := st.Val.(*ssa.Const); !isK || (k.Value != nil && !isZeroConst(k)) {
+								fresh = false
+								why = "the target variable is pre-filled before decoding"
+							}
+						}
+					}
+				}
+				c.Check(fresh, "O7.6", fk(fn)+":decode-target-is-fresh", cl.Pos(), "JSON decoding of an ammo entry must fill a fresh zero variable: "+why)
+			})
+		}
+	}
+	c.Floor("O7.6", "JSON decode calls in the ammo provider packages", n, 3)
+}
+
+func isZeroConst(k *ssa.Const) bool {
+	if k.Value == nil {
+		return true
+	}
+	if v, ok := ConstInt(k); ok && v == 0 {
+		return true
+	}
+	if s, ok := ConstString(k); ok && s == "" {
+		return true
+	}
+	if b, ok := ConstCond(k); ok && !b {
+		return true
+	}
+	return false
 }
